@@ -1421,6 +1421,15 @@ pub fn registry() -> Vec<PropDef> {
                     source: Source::Random { strategy: values_addstream_strategy, cases: cases_fn!(3000, 50000) },
                     oracle: c04_oracle,
                 },
+                // the same traffic with a payload type that has a hand-written Clone but no
+                // destructor (mem::needs_drop is false): code that treats such a type specially -
+                // the crate carries a TODO about skipping the pin for it - must still hand out
+                // unchanged values (round-6 seed C04-7); runs in the pod_payload binary
+                Part {
+                    name: "values_without_destructor",
+                    source: Source::Random { strategy: values_strategy, cases: cases_fn!(5000, 80000) },
+                    oracle: c04_oracle,
+                },
             ],
             rule: "traffic with N in {1,2,4}, 1-3 consumers per stream, shared, single-consumer and view receivers, streams added during traffic (consumer forks; the add_stream scenarios of C10); the payload's Clone and every view closure contain a scheduling point (targeted by a dedicated schedule policy) so a clone/view can be suspended while producers wrap the ring; oracle = payload self-checks (well-formed, live in the ledger, unchanged) at the start and end of every clone/view and on every delivered value; non-trivial = some clone/view was suspended while other threads ran AND the ring wrapped",
             assumptions: vec![SC_ASSUME, SAMPLE_ASSUME, "a payload write/read is one step for the scheduler: tearing inside one memcpy is not modelled"],
